@@ -77,8 +77,3 @@ Definition trim_slash (q : str) : str :=
 
 Definition get_leaves (values : cfgmap) (path_as_string : str) : list (str * str) :=
   map (fun pv => (pv_path pv, pv_val pv)) (get_filter values (trim_slash path_as_string)).
-
-(* createUpdate, PROTO encoding: prefixPath := StrPathElem(prefix.Elem);
-   if len(prefixPath) > len(cv.Path) { continue }   ("if prefix is longer than the path, it can't possibly match") *)
-Definition get_leaves_proto (values : cfgmap) (path_as_string prefix_text : str) : list (str * str) :=
-  filter (fun e => Nat.leb (length prefix_text) (length (fst e))) (get_leaves values path_as_string).
